@@ -417,6 +417,7 @@ def loop_body_table(m: Model, extra_atoms: dict[str, tuple] | None = None) -> li
                 ev["left_loop"] = True
                 raise Stop()
             else:
+                ev.setdefault("stmts", []).append(norm(st) if not isinstance(st, (ast.For, ast.While)) else "for ...")
                 for n in walk_local(st):
                     if id(n) in emit_nodes:
                         ev["emitted"] += 1
@@ -468,7 +469,7 @@ def loop_body_table(m: Model, extra_atoms: dict[str, tuple] | None = None) -> li
             pass
         row = dict(zip(keys, combo))
         row.update({"emitted": ev["emitted"], "descended": ev["descended"], "evaluated": sorted(ev["evaluated"]),
-                    "emit_args": ev["emit_args"], "left_loop": ev["left_loop"]})
+                    "emit_args": ev["emit_args"], "left_loop": ev["left_loop"], "stmts": ev.get("stmts", [])})
         rows.append(row)
     return rows
 
